@@ -10,6 +10,7 @@ mod c12;
 mod c13;
 mod c14;
 mod c18;
+mod c20;
 mod corpus;
 mod ev;
 mod evolve;
@@ -73,6 +74,7 @@ fn main() {
         "C13" => c13::run(tier, rp),
         "C14" => c14::run(tier, rp),
         "C18" => c18::run(tier, rp),
+        "C20" => c20::run(tier, rp),
         _ => ev::machinery(&format!("unknown property {id}")),
     };
     std::process::exit(code);
